@@ -1,6 +1,7 @@
 (* C05: pcDelta = histogram of all pairwise distances (distance.pcDelta). Definitions only. *)
-From Coq Require Import List QArith NArith Bool Arith.
-From PV Require Import lib.Condensed lib.Edits lib.LevDP lib.Str model.Pc.
+From Coq Require Import List QArith NArith ZArith Bool Arith.
+From PV Require Import lib.Condensed lib.Edits lib.LevDP lib.Str lib.Val model.Pc model.Resample.
+From PV Require Import gen.Gen_data gen.Gen_c05.
 Import ListNotations.
 
 (* numpy.histogram convention: bin t = [e_t, e_{t+1}), the last bin is closed on the right,
@@ -12,16 +13,39 @@ Definition in_bin (edges : list Q) (t : nat) (v : Q) : bool :=
 Definition histogram (edges : list Q) (vals : list Q) : list nat :=
   map (fun t => length (filter (in_bin edges t) vals)) (seq 0 (length edges - 1)).
 
+(* strictly increasing edge vector; value inside the outer edges *)
+Fixpoint increasing (e : list Q) : Prop :=
+  match e with
+  | a :: r => match r with b :: _ => a < b /\ increasing r | [] => True end
+  | [] => True
+  end.
+Definition inside (edges : list Q) (v : Q) : bool :=
+  match edges with
+  | [] => false
+  | a :: r => match r with [] => false | _ => Qle_bool a v && Qle_bool v (last r 0) end
+  end.
+
 Definition qn (n : nat) : Q := inject_Z (Z.of_nat n).
 
+(* specification enumerations: unordered pairs of distinct positions, all cross pairs *)
+Definition pairs_lt (n : nat) : list (nat * nat) :=
+  filter (fun ij => Nat.ltb (fst ij) (snd ij)) (list_prod (seq 0 n) (seq 0 n)).
+Definition pairs_cross (n m : nat) : list (nat * nat) := list_prod (seq 0 n) (seq 0 m).
+
 Section Metric.
-Variable metric : str -> str -> nat.
-(* one collection: the condensed vector (each unordered pair of distinct positions once) *)
-Definition pdist_vals (xs : list str) : list Q := map qn (pdist_loop metric [] xs).
-(* two collections: every i with every j *)
-Definition cdist_vals (xs ys : list str) : list Q := map qn (concat (cdist_loop metric xs ys)).
-Definition pcdelta_counts (edges : list Q) (xs : list str) (ys : option (list str)) : list nat :=
-  histogram edges (match ys with None => pdist_vals xs | Some y => cdist_vals xs y end).
+Context {X : Type}.
+Variable metric : X -> X -> nat.
+Variable d0 : X.
+(* one collection: the condensed vector = squareform(checks=False) of the self-cdist matrix
+   (each unordered pair of distinct positions once, entry (i,j) with i<j = metric x_i x_j) *)
+Definition pdist_vals (xs : list X) : list Q := map qn (pdist_loop metric d0 xs).
+(* two collections: every i with every j, row-major *)
+Definition cdist_vals (xs ys : list X) : list Q := map qn (concat (cdist_loop metric xs ys)).
+Definition pcdelta_vals (xs : list X) (ys : option (list X)) : list Q :=
+  match ys with None => pdist_vals xs | Some y => cdist_vals xs y end.
+Definition pcdelta_counts (edges : list Q) (xs : list X) (ys : option (list X)) : list nat :=
+  histogram edges (pcdelta_vals xs ys).
+Definition dist_at (xs ys : list X) (ij : nat * nat) : Q := qn (metric (nth (fst ij) xs d0) (nth (snd ij) ys d0)).
 End Metric.
 
 Definition total (h : list nat) : nat := list_sum h.
@@ -33,3 +57,58 @@ Definition pseudo (c : Q) (h : list nat) : list Q := map (fun x => (qn x + c) / 
 (* unordered pairs i < j holding equal elements *)
 Definition equal_pairs (xs : list str) : list (nat * nat) :=
   filter (fun ij => str_eqb (nth (fst ij) xs []) (nth (snd ij) xs [])) (upper (length xs)).
+
+(* ---- the whole function ------------------------------------------------------------- *)
+Inductive bins_arg := BinsZero | BinsNone | BinsEdges (e : list Q).
+Inductive pcd_out := OutPc (num den : nat) | OutVec (v : list (option Q)).
+
+Definition zrange (lo hi : Z) : list Z := map (fun k => (lo + Z.of_nat k)%Z) (seq 0 (Z.to_nat (hi - lo))).
+Definition default_edges : list Q :=
+  map inject_Z (zrange (fst gen_pcdelta_default_bins_range) (snd gen_pcdelta_default_bins_range)).
+Definition edges_of (b : bins_arg) : list Q := match b with BinsEdges e => e | _ => default_edges end.
+
+(* downsample of distance.py with the random draw S (positions) as an explicit argument;
+   keep-condition and sample size are the regenerated expressions *)
+Definition pcd_downsample {X} (d : X) (xs : list X) (maxseqs : option nat) (S : list nat) : list X :=
+  match maxseqs with
+  | None => xs
+  | Some m => if gen_downsample_keep (length xs) m then xs
+              else map (fun t => nth t xs d) (firstn (gen_downsample_size (length xs) m) S)
+  end.
+
+Section PcDelta.
+Context {X : Type}.
+Variable eqd : forall a b : X, {a = b} + {a <> b}.
+Variable metric : X -> X -> nat.
+Variable d0 : X.
+Definition pcdelta (xs : list X) (ys : option (list X)) (bins : bins_arg) (norm : bool) (c : Q)
+                   (maxseqs : option nat) (S1 S2 : list nat) : pcd_out :=
+  match bins with
+  | BinsZero => match ys with
+                | None => OutPc (pc_num eqd xs) (pc_den xs)
+                | Some y => OutPc (pc2_num eqd xs y) (pc2_den xs y)
+                end
+  | _ => let xs' := pcd_downsample d0 xs maxseqs S1 in
+         let ys' := option_map (fun y => pcd_downsample d0 y maxseqs S2) ys in
+         OutVec (gen_pcdelta_tail norm c (map qn (pcdelta_counts metric d0 (edges_of bins) xs' ys')))
+  end.
+End PcDelta.
+
+(* ---- metrics ------------------------------------------------------------------------ *)
+(* elements are (alpha CDR3, beta CDR3) pairs; plain strings are carried in the first component.
+   kind: 0 (weighted) Levenshtein on the first component [Levenshtein / WeightedLevenshtein / AlphaCdr3Levenshtein],
+         2 on the second [BetaCdr3Levenshtein], 3 sum of both [Cdr3Levenshtein]; code 1 = 0 (alpha) *)
+Definition row := (str * str)%type.
+Definition row_metric (kind wi wd ws : nat) (a b : row) : nat :=
+  let l := wlev_dp N.eq_dec wi wd ws in
+  match kind with
+  | 2%nat => l (snd a) (snd b)
+  | 3%nat => (l (fst a) (fst b) + l (snd a) (snd b))%nat
+  | _ => l (fst a) (fst b)
+  end.
+Definition row0 : row := ([], []).
+Definition row_eq_dec : forall a b : row, {a = b} + {a <> b}.
+Proof. decide equality; apply str_eq_dec. Defined.
+
+(* load_pcDelta_background: bin edges from the index of the bundled table *)
+Definition background_bins : list Z := gen_background_bins pcdelta_background_index.
